@@ -119,7 +119,7 @@ impl<T> VxIter<T> {
     { unimplemented!() }
 }
 // the per-job graceful-quit task sees the job handle only (what the job does with Stop/Delete is unit `task`: C04/C06/C07/C09)
-pub enum JAct { StopWithSignal(Job, Signal, Duration), Delete(Job), AwaitDelete(Job) }
+pub enum JAct { StopWithSignal(Job, Signal, Duration), Delete(Job), AwaitDelete(Job), Other(Job) }
 pub struct JEnv { pub log: Ghost<Seq<JAct>> }
 pub struct TicketJ { pub j: Job }
 impl TicketJ {
@@ -131,4 +131,11 @@ impl Job {
     pub fn stop_with_signal(&self, s: Signal, d: Duration, env: &mut JEnv) -> (t: TicketJ) ensures final(env).log@ == old(env).log@.push(JAct::StopWithSignal(*self, s, d)) { unimplemented!() }
     #[verifier::external_body]
     pub fn delete(&self, env: &mut JEnv) -> (t: TicketJ) ensures final(env).log@ == old(env).log@.push(JAct::Delete(*self)), t.j == *self { unimplemented!() }
+    // every other control-sending method of the real Job handle (a quit task that uses one of them does something else than documented)
+    #[verifier::external_body]
+    pub fn delete_now(&self, env: &mut JEnv) -> (t: TicketJ) ensures final(env).log@ == old(env).log@.push(JAct::Other(*self)), t.j == *self { unimplemented!() }
+    #[verifier::external_body]
+    pub fn stop(&self, env: &mut JEnv) -> (t: TicketJ) ensures final(env).log@ == old(env).log@.push(JAct::Other(*self)), t.j == *self { unimplemented!() }
+    #[verifier::external_body]
+    pub fn signal(&self, s: Signal, env: &mut JEnv) -> (t: TicketJ) ensures final(env).log@ == old(env).log@.push(JAct::Other(*self)), t.j == *self { unimplemented!() }
 }
